@@ -746,6 +746,41 @@ func ScriptReinvestDry(nextID *int) History {
 	return h
 }
 
+// ScriptReinvestSix: corpus history — six providers with equal units, a bucket of 6e18 re-invested at the epoch end (each
+// share is 0.166666666666666667: six amounts of 1e18+2, so the bucket cannot pay the last one), followed by a
+// provider-distribution period: whatever the epoch hook did to the last provider, the later payout must still be pro rata.
+func ScriptReinvestSix(nextID *int) History {
+	e := env.New(env.Opts{NUsers: 7, Tokens: []string{"ceth"}})
+	h := History{ID: 9026, Env: e, Desc: map[string]interface{}{"corpus": "re-invested bucket, six equal providers, then a provider distribution", "tokens": []string{"ceth"}, "rewards_to_wallet": false, "bucket": "6e18"}}
+	e.BlockStep = 25 * time.Minute
+	e.BeginBlock()
+	mustOK(e.UpdateRewardsParams(0, 0, 0, "hour", false), "rewards params")
+	tid := e.DenomID["ceth"]
+	asset := clptypes.NewAsset("ceth")
+	id := func(a chain.Account) int64 { return e.AcctID[a.Addr.String()] }
+	n1 := chain.E(18)
+	m1 := clptypes.NewMsgCreatePool(e.Users[0].Addr, asset, env.U(n1), env.U(n1))
+	recTx(&h, nextID, 0, e.Users[0], Msg{Tag: 1, Signer: id(e.Users[0]), A: tid, X: n1, Y: n1}, &m1)
+	for i, u := range e.Users[1:6] {
+		m2 := clptypes.NewMsgAddLiquidity(u.Addr, asset, env.U(n1), env.U(n1))
+		recTx(&h, nextID, 1+i, u, Msg{Tag: 2, Signer: id(u), A: tid, X: n1, Y: n1}, &m2)
+	}
+	six := new(big.Int).Mul(big.NewInt(6), chain.E(18))
+	coins := sdk.NewCoins(sdk.NewCoin("ceth", sdk.NewIntFromBigInt(six)))
+	m4 := clptypes.NewMsgAddLiquidityToRewardsBucketRequest(e.Users[6].Addr.String(), coins)
+	recTx(&h, nextID, 6, e.Users[6], Msg{Tag: 9, Signer: id(e.Users[6]), Coins: [][2]*big.Int{{big.NewInt(tid), six}}}, m4)
+	for i := 0; i < 4; i++ {
+		recBlock(&h, nextID, 7+i)
+	}
+	st := uint64(e.Height)
+	mustOK(e.AddLppdPeriods([]*clptypes.ProviderDistributionPeriod{{DistributionPeriodBlockRate: sdk.NewDecWithPrec(1, 2), DistributionPeriodStartBlock: st,
+		DistributionPeriodEndBlock: st + 2, DistributionPeriodMod: 1}}), "lppd")
+	for i := 0; i < 3; i++ {
+		recBlock(&h, nextID, 11+i)
+	}
+	return h
+}
+
 // hookPanicText: what a block hook panicked with (empty when it did not)
 func hookPanicText(e *env.Env, panicked bool) string {
 	if !panicked {
